@@ -40,6 +40,20 @@ func vfC07Oracle(in *vfGWInst, evFull string, pre, post *vfSnap) {
 			joined[t] = true
 		}
 	}
+	// "backed-off" has to mean the longest backoff anybody started: a running backoff is only ever extended, never cut
+	// short by a later, shorter one (the table is what every graft site consults)
+	for t, m := range pre.Backoff {
+		for p, rem := range m {
+			left := rem - (post.Now - pre.Now)
+			if left <= time.Millisecond {
+				continue
+			}
+			if now, ok := post.Backoff[t][p]; !ok || now < left-time.Millisecond {
+				in.bad("c07:backoff-shortened", "the backoff of %s for %s had %v left to run; after this step it has %v (present: %v)", p, t, left, now, ok)
+			}
+			in.count("running_backoffs_followed")
+		}
+	}
 	for t := range post.Mesh {
 		if !joined[t] {
 			in.bad("c07:mesh-without-join", "a mesh exists for topic %s which is not joined", t)
@@ -354,6 +368,10 @@ func vfC07Scenarios(thorough bool) []*vfGWScenario {
 	p6o[4].Outbound, p6o[5].Outbound = true, true // e and f are accepted beyond Dhi: nobody is refused, no backoff entry yet
 	mk("over-oppgraft", "d4og", p6o, append(graftAll(p6o), "score:a:0.8", "score:b:0.6", "score:c:0.4", "score:d:0.2", "score:e:0.1"),
 		[]string{"hb", "score:f:0.7", "score:a:-1", "prune:b:t", "graft:b:t", "adv:5000"}, d)
+	// S3a': every source of a backoff for one peer, in every order: the peer's own PRUNEs with a long and a short stated
+	// period, our heartbeat's prune of a negatively scored member, refused GRAFTs, leaving the topic
+	mk("backoff-sources", "d2", p4, append(connAll(p4, true), "join:t"),
+		[]string{"prune:a:t:60", "prune:a:t:1", "graft:a:t", "hb", "leave:t", "join:t", "score:a:-1", "score:a:0", "adv:2100"}, d+1)
 	// S3b: zero periods for opportunistic grafting / direct connect (accepted by parameter validation)
 	for _, ps := range []string{"d2og0", "d2dc0"} {
 		mk("zero-period-"+ps, ps, p4, connAll(p4, true), []string{"join:t", "leave:t", "hb", "graft:a:t", "prune:a:t", "score:a:-1", "score:b:2"}, d-1)
